@@ -45,6 +45,16 @@ func (h *Cache) Push(data []byte, epoch, messageSequence uint16, typ handshake.T
 	h.mu.Lock()
 	defer h.mu.Unlock()
 
+	for _, item := range h.cache {
+		// A retransmitted flight pushes the messages it already pushed: keeping
+		// one more copy per retransmission lets the cache grow for as long as
+		// the peer (or anyone spoofing it) provokes retransmissions.
+		if item.MessageSequence == messageSequence && item.IsClient == isClient &&
+			item.Epoch == epoch && item.Typ == typ && bytes.Equal(item.Data, data) {
+			return
+		}
+	}
+
 	h.cache = append(h.cache, &HandshakeCacheItem{
 		Data:            bytes.Clone(data),
 		Epoch:           epoch,
